@@ -25,6 +25,7 @@ from ..sleep import (
 from .context import _AsyncPolicyContext
 from .execution import (
     ExecutionContext,
+    admit,
     build_aborted_outcome,
     build_circuit_open_outcome,
     build_exception_outcome_no_retry,
@@ -228,11 +229,9 @@ class AsyncPolicy:
 
         # Circuit breaker check
         if ctx.breaker is not None:
-            decision = ctx.breaker.allow()
-            ctx.emit_breaker_event(decision.event, decision.state)
+            decision = admit(ctx)
             if not decision.allowed:
                 return build_circuit_open_outcome(ctx, decision.state.value)
-            ctx.admitted = True
 
         try:
             # Delegate to retry if configured
